@@ -111,15 +111,15 @@ def Frustum.aspect_ortho {α : Type} [Sub α] [Div α] (n : α) (f : α) (l : α
   ((r - l) / (t - b))
 
 /-- extracted from the C++ template at T = Sym; 32 path(s) -/
-def Frustum.modifyNearAndFar_persp {α : Type} [Add α] [Sub α] [Mul α] [Div α] [Neg α] [LT α] [LE α] [DecidableLT α] [DecidableLE α] [DecidableEq α] [OfNat α 0] [OfNat α 1] [OfNat α 2] (tmin : α) (sqrt : α → α) (n : α) (f : α) (l : α) (r : α) (t : α) (b : α) (n2 : α) (f2 : α) : (α × α × α × α × α × α × Bool) :=
+def Frustum.modifyNearAndFar_persp {α : Type} [Add α] [Sub α] [Mul α] [Div α] [Neg α] [LT α] [LE α] [DecidableLT α] [DecidableLE α] [DecidableEq α] [OfNat α 0] [OfNat α 1] [OfNat α 2] (tmin : α) (tmax : α) (sqrt : α → α) (n : α) (f : α) (l : α) (r : α) (t : α) (b : α) (n2 : α) (f2 : α) : (α × α × α × α × α × α × Bool) :=
   let t45 := ((-n) - (0 : α))
   let t46 := (b - (0 : α))
   let t47 := (l - (0 : α))
-  let t48 := (V3.length tmin sqrt ⟨t47, t46, t45⟩)
+  let t48 := (V3.length tmin tmax sqrt ⟨t47, t46, t45⟩)
   let t49 := (t - (0 : α))
   let t50 := (r - (0 : α))
-  let t51 := (V3.length tmin sqrt ⟨t50, t49, t45⟩)
-  let t53 := (V3.length tmin sqrt ⟨(0 : α), (0 : α), (-(1 : α))⟩)
+  let t51 := (V3.length tmin tmax sqrt ⟨t50, t49, t45⟩)
+  let t53 := (V3.length tmin tmax sqrt ⟨(0 : α), (0 : α), (-(1 : α))⟩)
   let t54 := ((-(1 : α)) * t45)
   let t58 := ((((0 : α) * t47) + ((0 : α) * t46)) + t54)
   let t62 := ((((0 : α) * t50) + ((0 : α) * t49)) + t54)
@@ -302,11 +302,11 @@ def Frustum.localToScreen_persp {α : Type} [Add α] [Sub α] [Mul α] [Div α] 
   ⟨(((l - ((2 : α) * p.x)) + r) / (l - r)), (((b - ((2 : α) * p.y)) + t) / (b - t))⟩
 
 /-- extracted from the C++ template at T = Sym; 2 path(s) -/
-def Frustum.projectScreenToRay_persp {α : Type} [Add α] [Sub α] [Mul α] [Div α] [Neg α] [LT α] [LE α] [DecidableLT α] [DecidableLE α] [DecidableEq α] [OfNat α 0] [OfNat α 1] [OfNat α 2] (tmin : α) (sqrt : α → α) (n : α) (f : α) (l : α) (r : α) (t : α) (b : α) (s : V2 α) : (Line3 α) :=
+def Frustum.projectScreenToRay_persp {α : Type} [Add α] [Sub α] [Mul α] [Div α] [Neg α] [LT α] [LE α] [DecidableLT α] [DecidableLE α] [DecidableEq α] [OfNat α 0] [OfNat α 1] [OfNat α 2] (tmin : α) (tmax : α) (sqrt : α → α) (n : α) (f : α) (l : α) (r : α) (t : α) (b : α) (s : V2 α) : (Line3 α) :=
   let t45 := ((-n) - (0 : α))
   let t226 := ((b + (((t - b) * ((1 : α) + s.y)) / (2 : α))) - (0 : α))
   let t227 := ((l + (((r - l) * ((1 : α) + s.x)) / (2 : α))) - (0 : α))
-  let t228 := (V3.length tmin sqrt ⟨t227, t226, t45⟩)
+  let t228 := (V3.length tmin tmax sqrt ⟨t227, t226, t45⟩)
   if t228 = (0 : α) then
     ⟨⟨(0 : α), (0 : α), (0 : α)⟩, ⟨t227, t226, t45⟩⟩
   else
@@ -350,13 +350,13 @@ def Frustum.localToScreen_ortho {α : Type} [Add α] [Sub α] [Mul α] [Div α] 
   ⟨(((l - ((2 : α) * p.x)) + r) / (l - r)), (((b - ((2 : α) * p.y)) + t) / (b - t))⟩
 
 /-- extracted from the C++ template at T = Sym; 2 path(s) -/
-def Frustum.projectScreenToRay_ortho {α : Type} [Add α] [Sub α] [Mul α] [Div α] [Neg α] [LT α] [LE α] [DecidableLT α] [DecidableLE α] [DecidableEq α] [OfNat α 0] [OfNat α 1] [OfNat α 2] (tmin : α) (sqrt : α → α) (n : α) (f : α) (l : α) (r : α) (t : α) (b : α) (s : V2 α) : (Line3 α) :=
+def Frustum.projectScreenToRay_ortho {α : Type} [Add α] [Sub α] [Mul α] [Div α] [Neg α] [LT α] [LE α] [DecidableLT α] [DecidableLE α] [DecidableEq α] [OfNat α 0] [OfNat α 1] [OfNat α 2] (tmin : α) (tmax : α) (sqrt : α → α) (n : α) (f : α) (l : α) (r : α) (t : α) (b : α) (s : V2 α) : (Line3 α) :=
   let t209 := (b + (((t - b) * ((1 : α) + s.y)) / (2 : α)))
   let t213 := (l + (((r - l) * ((1 : α) + s.x)) / (2 : α)))
   let t267 := ((-(1 : α)) - (0 : α))
   let t268 := (t209 - t209)
   let t269 := (t213 - t213)
-  let t270 := (V3.length tmin sqrt ⟨t269, t268, t267⟩)
+  let t270 := (V3.length tmin tmax sqrt ⟨t269, t268, t267⟩)
   if t270 = (0 : α) then
     ⟨⟨t213, t209, (0 : α)⟩, ⟨t269, t268, t267⟩⟩
   else
@@ -379,14 +379,14 @@ def Frustum.worldRadius_ortho {α : Type} [Mul α] [Div α] [Neg α] (n : α) (f
   (radius * (p.z / (-n)))
 
 /-- extracted from the C++ template at T = Sym; 64 path(s) -/
-def Frustum.planes_persp {α : Type} [Add α] [Sub α] [Mul α] [Div α] [Neg α] [LT α] [LE α] [DecidableLT α] [DecidableLE α] [DecidableEq α] [OfNat α 0] [OfNat α 1] [OfNat α 2] (tmin : α) (sqrt : α → α) (n : α) (f : α) (l : α) (r : α) (t : α) (b : α) : ((Plane3 α) × (Plane3 α) × (Plane3 α) × (Plane3 α) × (Plane3 α) × (Plane3 α)) :=
+def Frustum.planes_persp {α : Type} [Add α] [Sub α] [Mul α] [Div α] [Neg α] [LT α] [LE α] [DecidableLT α] [DecidableLE α] [DecidableEq α] [OfNat α 0] [OfNat α 1] [OfNat α 2] (tmin : α) (tmax : α) (sqrt : α → α) (n : α) (f : α) (l : α) (r : α) (t : α) (b : α) : ((Plane3 α) × (Plane3 α) × (Plane3 α) × (Plane3 α) × (Plane3 α) × (Plane3 α)) :=
   let t44 := (-n)
   let t45 := (t44 - (0 : α))
   let t46 := (b - (0 : α))
   let t47 := (l - (0 : α))
   let t49 := (t - (0 : α))
   let t50 := (r - (0 : α))
-  let t53 := (V3.length tmin sqrt ⟨(0 : α), (0 : α), (-(1 : α))⟩)
+  let t53 := (V3.length tmin tmax sqrt ⟨(0 : α), (0 : α), (-(1 : α))⟩)
   let t83 := ((0 : α) / t53)
   let t84 := ((-(1 : α)) / t53)
   let t277 := (t49 * t47)
@@ -398,7 +398,7 @@ def Frustum.planes_persp {α : Type} [Add α] [Sub α] [Mul α] [Div α] [Neg α
   let t283 := (t45 * t49)
   let t284 := (t49 * t45)
   let t285 := (t284 - t283)
-  let t286 := (V3.length tmin sqrt ⟨t285, t282, t279⟩)
+  let t286 := (V3.length tmin tmax sqrt ⟨t285, t282, t279⟩)
   let t291 := (((t285 * (0 : α)) + (t282 * (0 : α))) + (t279 * (0 : α)))
   let t292 := (t46 * t50)
   let t293 := (t278 - t292)
@@ -406,7 +406,7 @@ def Frustum.planes_persp {α : Type} [Add α] [Sub α] [Mul α] [Div α] [Neg α
   let t295 := (t294 - t280)
   let t296 := (t46 * t45)
   let t297 := (t296 - t283)
-  let t298 := (V3.length tmin sqrt ⟨t297, t295, t293⟩)
+  let t298 := (V3.length tmin tmax sqrt ⟨t297, t295, t293⟩)
   let t303 := (((t297 * (0 : α)) + (t295 * (0 : α))) + (t293 * (0 : α)))
   let t304 := (t47 * t46)
   let t305 := (t304 - t292)
@@ -414,14 +414,14 @@ def Frustum.planes_persp {α : Type} [Add α] [Sub α] [Mul α] [Div α] [Neg α
   let t307 := (t294 - t306)
   let t308 := (t45 * t46)
   let t309 := (t296 - t308)
-  let t310 := (V3.length tmin sqrt ⟨t309, t307, t305⟩)
+  let t310 := (V3.length tmin tmax sqrt ⟨t309, t307, t305⟩)
   let t315 := (((t309 * (0 : α)) + (t307 * (0 : α))) + (t305 * (0 : α)))
   let t316 := (t304 - t277)
   let t317 := (t281 - t306)
   let t318 := (t284 - t308)
-  let t319 := (V3.length tmin sqrt ⟨t318, t317, t316⟩)
+  let t319 := (V3.length tmin tmax sqrt ⟨t318, t317, t316⟩)
   let t324 := (((t318 * (0 : α)) + (t317 * (0 : α))) + (t316 * (0 : α)))
-  let t325 := (V3.length tmin sqrt ⟨(0 : α), (0 : α), (1 : α)⟩)
+  let t325 := (V3.length tmin tmax sqrt ⟨(0 : α), (0 : α), (1 : α)⟩)
   let t326 := ((0 : α) / t325)
   let t327 := ((1 : α) / t325)
   let t328 := (t318 / t319)
@@ -632,20 +632,20 @@ def Frustum.planes_persp {α : Type} [Add α] [Sub α] [Mul α] [Div α] [Neg α
               (⟨⟨t352, t353, t354⟩, t359⟩, ⟨⟨t344, t345, t346⟩, t351⟩, ⟨⟨t336, t337, t338⟩, t343⟩, ⟨⟨t328, t329, t330⟩, t335⟩, ⟨⟨t326, t326, t327⟩, t44⟩, ⟨⟨t83, t83, t84⟩, f⟩)
 
 /-- extracted from the C++ template at T = Sym; 64 path(s) -/
-def Frustum.planes_ortho {α : Type} [Add α] [Mul α] [Div α] [Neg α] [LT α] [LE α] [DecidableLT α] [DecidableLE α] [DecidableEq α] [OfNat α 0] [OfNat α 1] [OfNat α 2] (tmin : α) (sqrt : α → α) (n : α) (f : α) (l : α) (r : α) (t : α) (b : α) : ((Plane3 α) × (Plane3 α) × (Plane3 α) × (Plane3 α) × (Plane3 α) × (Plane3 α)) :=
+def Frustum.planes_ortho {α : Type} [Add α] [Mul α] [Div α] [Neg α] [LT α] [LE α] [DecidableLT α] [DecidableLE α] [DecidableEq α] [OfNat α 0] [OfNat α 1] [OfNat α 2] (tmin : α) (tmax : α) (sqrt : α → α) (n : α) (f : α) (l : α) (r : α) (t : α) (b : α) : ((Plane3 α) × (Plane3 α) × (Plane3 α) × (Plane3 α) × (Plane3 α) × (Plane3 α)) :=
   let t44 := (-n)
-  let t53 := (V3.length tmin sqrt ⟨(0 : α), (0 : α), (-(1 : α))⟩)
+  let t53 := (V3.length tmin tmax sqrt ⟨(0 : α), (0 : α), (-(1 : α))⟩)
   let t83 := ((0 : α) / t53)
   let t84 := ((-(1 : α)) / t53)
-  let t325 := (V3.length tmin sqrt ⟨(0 : α), (0 : α), (1 : α)⟩)
+  let t325 := (V3.length tmin tmax sqrt ⟨(0 : α), (0 : α), (1 : α)⟩)
   let t326 := ((0 : α) / t325)
   let t327 := ((1 : α) / t325)
-  let t360 := (V3.length tmin sqrt ⟨(0 : α), (1 : α), (0 : α)⟩)
-  let t361 := (V3.length tmin sqrt ⟨(1 : α), (0 : α), (0 : α)⟩)
+  let t360 := (V3.length tmin tmax sqrt ⟨(0 : α), (1 : α), (0 : α)⟩)
+  let t361 := (V3.length tmin tmax sqrt ⟨(1 : α), (0 : α), (0 : α)⟩)
   let t362 := (-b)
-  let t363 := (V3.length tmin sqrt ⟨(0 : α), (-(1 : α)), (0 : α)⟩)
+  let t363 := (V3.length tmin tmax sqrt ⟨(0 : α), (-(1 : α)), (0 : α)⟩)
   let t364 := (-l)
-  let t365 := (V3.length tmin sqrt ⟨(-(1 : α)), (0 : α), (0 : α)⟩)
+  let t365 := (V3.length tmin tmax sqrt ⟨(-(1 : α)), (0 : α), (0 : α)⟩)
   let t366 := ((-(1 : α)) / t365)
   let t367 := ((0 : α) / t365)
   let t368 := ((0 : α) / t363)
